@@ -59,6 +59,7 @@ type Op struct {
 	Shared int       `json:"shared"`           // index into Scenario.Shared, -1: private expression built from Priv
 	Priv   *ExprSpec `json:"priv,omitempty"`   // private subject
 	Fresh  bool      `json:"fresh,omitempty"`  // render with a fresh NewPostgresDriver() instead of the shared driver value
+	MapDrv bool      `json:"mapdrv,omitempty"` // render with driver.Base{RenderFNs: driver.Shared} (the exported table itself)
 	Fault  *Fault    `json:"fault,omitempty"`  // callback fault (custom driver operations only)
 	Target int       `json:"target,omitempty"` // spawn: task to start
 }
@@ -505,6 +506,7 @@ func genOp(r *zsimrt.Rand, c *corpus, sc *Scenario, bias, faultPerm, hot int) Op
 	switch op.Kind {
 	case KRender, KRenderParam:
 		op.Fresh = r.Intn(4) == 0 || sc.Cold // cold: no driver value exists before the run
+		op.MapDrv = !op.Fresh && r.Intn(6) == 0
 	case KCRender, KCRenderParam:
 		if faultPerm > 0 && r.Intn(1000) < faultPerm*3 {
 			kinds := []string{FError, FError, FPanic, FPanic, FSlow, FSlow, FExit}
